@@ -23,9 +23,9 @@ XHTML = 'http://www.w3.org/1999/xhtml'
 SVG = 'http://www.w3.org/2000/svg'
 
 TYPES = (None, '', 'date', 'month', 'week', 'time', 'datetime-local', 'number', 'range', 'text', 'radio', 'checkbox', 'bogus', 'DaTe', 'hidden', 'submit')
-VALS_Q = (None, '', '2020-02-29', '2019-W53', '0999-W01', '10000-W10', '10:30', '2020-01-01T10:00', '5', 'x', '1e3', BIGYEAR + '-01-01')
+VALS_Q = (None, '', '2020-02-29', '2019-W53', '0999-W01', '10000-W10', '10:30', '2020-01-01T10:00', '5', 'x', '1e3', '4' * 4300 + '-01-01')
 VALS_T = VALS_Q + ('2019-W00', '2019-W54', '2020-02-30', '25:00', '24:00', '-', '.5.', '-.5', '0000-01-01', '0000-W01', '2020-13', '2020-00-10',
-                   BIGYEAR, BIGYEAR + '-W01', '١٢', '2020-01-01\n', ' 5', '5 ', '+5', '99999-12-31', '1' * 400)
+                   '4' * 4300, '4' * 4300 + '-W01', '١٢', '2020-01-01\n', ' 5', '5 ', '+5', '99999-12-31', '1' * 400)
 KINDS = ('input', 'button', 'select', 'option', 'textarea', 'fieldset', 'form', 'progress', 'a', 'p', 'bdi', 'iframe', 'legend', 'optgroup')
 
 
@@ -37,12 +37,24 @@ def focus_elements(tier):
     def el(name, attrs, kids=()):
         return ('e', name, tuple((k, v) for k, v in attrs if v is not None), tuple(kids))
     # range group: type x min x max x value
-    small = vals[:8] if tier == 'quick' else vals[:12]
+    # every (min, value) and (max, value) pair (each attribute is parsed on its own, comparisons are pairwise), plus small triples
+    valid = {'date': ('2020-02-29', '2021-01-01'), 'month': ('2020-02', '2021-12'), 'week': ('2019-W53', '0999-W01'),
+             'time': ('10:30', '23:59'), 'datetime-local': ('2020-01-01T10:00', '10000-01-01T00:00'), 'number': ('5', '-.5'),
+             'range': ('5', '1e3'), 'DaTe': ('2020-02-29', '0001-01-01')}
     for t in TYPES:
-        for mn, mx, v in itertools.product(small, small[:5], vals):
+        if tier == 'quick':
+            v1, v2 = valid.get(t, ('5', '2020-02-29'))
+            pv = (None, '', v1, v2, 'x', '99999' + ('-W01' if t == 'week' else '-01' if t == 'month' else '-01-01'))
+            tv = (v1, v2, 'x')
+        else:
+            pv, tv = vals, vals[1:7]
+        for a, v in itertools.product(pv, pv):
+            out.append(el('input', (('type', t), ('min', a), ('value', v))))
+            if a is not None:
+                out.append(el('input', (('type', t), ('max', a), ('value', v))))
+        for mn, mx, v in itertools.product(tv, tv, tv):
             out.append(el('input', (('type', t), ('min', mn), ('max', mx), ('value', v))))
-        for mn, v in itertools.product(vals, vals[::3]):
-            out.append(el('input', (('type', t), ('min', mn), ('value', v))))
+        out.append(el('input', (('type', t), ('min', vals[-1]), ('max', vals[-1]), ('value', vals[-1]))))
     # dir / text group
     texts = ((), (('t', 'abc'),), (('t', 'אב'),), (('t', '123'),), (('t', ''),), (('c', 'k'),), (('e', 'span', (), (('t', 'ע'),)),))
     for k in KINDS + ('span', 'div'):
@@ -71,7 +83,7 @@ def focus_elements(tier):
 
 ODD = (None, 0, 3.5, b'x', b'\xff', ('a', ('b',)), (), ('a', None, 1), True)
 ODD_SELECTORS = ['[t]', '[t=x]', '[t~=x]', '[t|=x]', '[t^=x]', '[t$=x]', '[t*=x]', '[t!=x]', '[t=x i]', '.c', '#i', '[class]', '[id=i]', '[class~=c]',
-                 ':not([t=a])', '.c.d', '[t] > *', '* + [t=0]']
+                 ':not([t=a])', '.c.d', '[t] > *', '* + [t="0"]']
 
 
 def odd_elements():
@@ -83,7 +95,7 @@ def odd_elements():
     return out
 
 
-def selector_texts(sv):
+def selector_texts(sv, tier='thorough'):
     cp = sv.css_parser
     simple = sorted(set(getattr(cp, 'PSEUDO_SIMPLE', ())) | set(getattr(cp, 'PSEUDO_SIMPLE_NO_MATCH', ())))
     base = list(simple)
@@ -100,7 +112,9 @@ def selector_texts(sv):
              '[type=date]', '[min]', '[max=""]', '[value^="2"]', '[dir=auto i]', '[lang|=en]', '[name=n]', '.a', '#x', '[rel~=nofollow]']
     out = []
     for b in base:
-        out += [b, f':not({b})', f'* > {b}', f'{b} ~ *']
+        out += [b, f':not({b})']
+        if tier != 'quick' or b in simple or b.startswith((':lang', ':dir', ':nth')):
+            out += [f'* > {b}', f'{b} + *']
     return out, base
 
 
@@ -133,10 +147,10 @@ def wrap(context, batch):
 
 def shards(tier, seed):
     n = 48 if tier == 'quick' else 160
-    return [('main', tier, i, n) for i in range(n)] + [('odd', tier, 0, 1), ('nontag', tier, 0, 1)]
+    return [('main', tier, i, n) for i in range(n)] + [('odd', tier, 0, 1), ('nontag', tier, 0, 1), ('huge', tier, 0, 1)]
 
 
-def call_all(sv, c, text, target, els, res):
+def call_all(sv, c, text, target, els, res, full=True):
     """Every entry point on one target; returns list of (entry, exception-or-type-problem)."""
     import bs4
     bad = []
@@ -155,13 +169,15 @@ def call_all(sv, c, text, target, els, res):
         except Exception as e:
             bad.append((entry, type(e).__name__ + ': ' + str(e)[:100]))
     is_list = lambda r: isinstance(r, list) and all(isinstance(x, bs4.Tag) for x in r)
-    run('select', lambda: c.select(target), is_list)
-    run('iselect', lambda: c.iselect(target, 2), is_list)
-    run('select_one', lambda: c.select_one(target), lambda r: r is None or isinstance(r, bs4.Tag))
-    run('filter', lambda: c.filter(target), is_list)
+    if full:
+        run('select', lambda: c.select(target), is_list)
+        run('iselect', lambda: c.iselect(target, 2), is_list)
+        run('select_one', lambda: c.select_one(target), lambda r: r is None or isinstance(r, bs4.Tag))
+        run('filter', lambda: c.filter(target), is_list)
     if not isinstance(target, bs4.BeautifulSoup):
         run('match', lambda: c.match(target), lambda r: isinstance(r, bool))
-        run('closest', lambda: c.closest(target), lambda r: r is None or isinstance(r, bs4.Tag))
+        if full:
+            run('closest', lambda: c.closest(target), lambda r: r is None or isinstance(r, bs4.Tag))
     return bad
 
 
@@ -186,15 +202,19 @@ def value_kind(spec):
 def locate(sv, c, text, context, batch, entry, res):
     """Find single elements of the batch that reproduce the failure on their own."""
     out = []
-    for spec in batch:
-        forest, xml, parentless = wrap(context, [spec])
-        for target, els in targets_of(forest, xml, parentless):
-            bad = call_all(sv, c, text, target, els, shard.Result())
-            if bad:
-                out.append((spec, bad[0]))
-                break
-        if len(out) >= 2:
-            break
+    sib = ('e', 'p', (), ())
+    for around in (False, True):
+        for spec in batch:
+            forest, xml, parentless = wrap(context, [sib, spec, sib] if around else [spec])
+            for target, els in targets_of(forest, xml, parentless):
+                bad = call_all(sv, c, text, target, els, shard.Result())
+                if bad:
+                    out.append((spec, bad[0], around))
+                    break
+            if len(out) >= 2:
+                return out
+        if out:
+            return out
     return out
 
 
@@ -212,14 +232,15 @@ def targets_of(forest, xml, parentless):
 
 
 def run_main(sv, tier, i, n, res):
-    texts, base = selector_texts(sv)
+    texts, base = selector_texts(sv, tier)
     focus = focus_elements(tier)
     if i == 0:
         res.count('selectors', len(texts))
         res.count('focus_elements', len(focus))
-    B = 40
+    B = 24
     batches = [focus[k:k + B] for k in range(0, len(focus), B)]
-    jobs = [(ctx, bi) for ctx in CONTEXTS for bi in range(len(batches))]
+    jobs = [(ctx, bi) for ctx in CONTEXTS for bi in range(len(batches))
+            if tier != 'quick' or ctx in ('form', 'parentless', 'iframe', 'xhtml') or bi % 3 == 0]
     for ji in range(i, len(jobs), n):
         context, bi = jobs[ji]
         batch = batches[bi]
@@ -235,20 +256,22 @@ def run_main(sv, tier, i, n, res):
                 continue
             # document-level / batch-level calls first; per-element targets for match/closest
             nbad = 0
-            for target, els in tl:
-                import bs4
-                if not isinstance(target, bs4.BeautifulSoup) and not parentless and (ti % 4) and target.name in ('html', 'body'):
-                    continue
-                bad = call_all(sv, c, text, target, els, res)
+            for k, (target, els) in enumerate(tl):
+                # all six entry points on the document, the wrappers and the first few focus elements (and on every parentless
+                # element); match() alone on the remaining elements (select on the document already evaluated each of them)
+                full = k < 4 or (k + ti) % 16 == 0
+                if not full and tier == 'quick' and ti % 4 and ':scope' not in text:
+                    continue        # quick: per-element match() for every fourth selector (select on the document evaluated them all)
+                bad = call_all(sv, c, text, target, els, res, full)
                 if bad:
                     nbad += 1
                     res.outcome('raised')
                     if nbad == 1:
                         found = locate(sv, c, text, context, batch, bad[0][0], res)
                         if not found:
-                            found = [(('e', 'batch', (), ()), bad[0])]
-                        for spec, (entry, why) in found:
-                            res.fail({'layer': 'main', 'context': context, 'element': spec, 'selector': text, 'entry': entry},
+                            found = [(('e', 'batch', (), ()), bad[0], False)]
+                        for spec, (entry, why), around in found:
+                            res.fail({'layer': 'main', 'context': context, 'element': spec, 'selector': text, 'entry': entry, 'around': around},
                                      {'kind': 'raise', 'exc': why.split(':')[0], 'values': value_kind(spec)},
                                      f'[{context}] {entry}({text!r}) on {T.to_markup((spec,))[:120]!r}: {why}')
                     else:
@@ -326,12 +349,45 @@ def run_nontag(sv, res):
     res.nontrivial += 2
 
 
+def huge_elements():
+    """Digit runs beyond Python's int() conversion limit (4300): a layer of its own, so that the main product stays cheap."""
+    out = []
+    for t, tail in (('date', '-01-01'), ('month', '-01'), ('week', '-W01'), ('datetime-local', '-01-01T00:00'), ('number', ''), ('range', ''),
+                    ('time', ':00')):
+        for attr in ('min', 'max', 'value'):
+            other = 'value' if attr != 'value' else 'min'
+            out.append(('e', 'input', (('type', t), (attr, BIGYEAR + tail), (other, '1')), ()))
+    return out
+
+
+def run_huge(sv, tier, res):
+    texts, base = selector_texts(sv, tier)
+    for spec in huge_elements():
+        forest, xml, parentless = wrap('form', [spec])
+        tl = list(targets_of(forest, xml, parentless))
+        for text in texts:
+            c = sv.compile(text)
+            for target, els in tl[:1] + tl[-1:]:
+                bad = call_all(sv, c, text, target, els, res)
+                if bad:
+                    entry, why = bad[0]
+                    res.outcome('raised')
+                    res.fail({'layer': 'main', 'context': 'form', 'element': spec, 'selector': text, 'entry': entry, 'around': False},
+                             {'kind': 'raise', 'exc': why.split(':')[0], 'values': value_kind(spec)},
+                             f'[form] {entry}({text!r}) on {T.to_markup((spec,))[:60]!r}...: {why}')
+                    break
+                res.outcome('returned')
+        res.nontrivial += 1
+
+
 def run_shard(desc):
     from .. import common
     sv = common.bind()
     warnings.simplefilter('ignore')
     res = shard.Result()
-    if desc[0] == 'main':
+    if desc[0] == 'huge':
+        run_huge(sv, desc[1], res)
+    elif desc[0] == 'main':
         run_main(sv, desc[1], desc[2], desc[3], res)
     elif desc[0] == 'odd':
         run_odd(sv, res)
@@ -366,7 +422,8 @@ def replay(case):
                 return {'kind': 'raise', 'exc': bad[0][1].split(':')[0], 'values': value_kind(spec)}, str(bad[0])
         return None
     spec = _sel.tup(case['element'])
-    forest, xml, parentless = wrap(case['context'], [spec])
+    sib = ('e', 'p', (), ())
+    forest, xml, parentless = wrap(case['context'], [sib, spec, sib] if case.get('around') else [spec])
     for target, els in targets_of(forest, xml, parentless):
         bad = call_all(sv, c, text, target, els, shard.Result())
         if bad:
